@@ -328,6 +328,30 @@ def head_probe(text, dmax):
         out.append((tl.dump_tterm(t), str(f), per))
     return out
 
+def range_probe(text):
+    """the time ranges the real `transform_theory_atom` computes for the head formulas of the program text:
+    list of {atom key: set of covered offsets 0..RANGE_BOUND}"""
+    from clingo import ast
+    import clingo
+    import telingo.transformers.head as th
+    stms = []
+    ast.parse_string(text, stms.append)
+    out = []
+    for st in stms:
+        if st.ast_type == ast.ASTType.Rule and st.head.ast_type == ast.ASTType.TheoryAtom and st.head.term.name == "tel":
+            _, ranges = th.transform_theory_atom(st.head)
+            cover = {}
+            for (lo, hi), heads in ranges:
+                l = lo.symbol.number
+                h = RANGE_BOUND if hi.symbol.type == clingo.SymbolType.Supremum else hi.symbol.number
+                for hd in heads:
+                    key = str(hd).replace(",__t)", ")").replace("(__t)", "()")
+                    cover.setdefault(key, set()).update(range(l, min(h, RANGE_BOUND) + 1))
+            out.append(cover)
+    return out
+
+RANGE_BOUND = 9
+
 def check_head(texts, dmax, model_exe):
     """L3 for head formulas: representation, shifting and unfolding agree with the model"""
     dis = []
@@ -343,6 +367,31 @@ def check_head(texts, dmax, model_exe):
             dis.append({"layer": "L3h", "text": text, "what": "exception while probing: {}: {}".format(tl.classify_exc(e), str(e)[:200])})
     # the model is asked for exactly the shifts the probe kept (see the size caps in head_probe)
     outs = model_exe.batch([tl.sexp(("head", p[0], max(0, len(p[2]) - 1))) for _, p in probes])
+    # time ranges (theorem `emitted_heads_in_ranges`): the model's ranges of the formula vs the real transform_theory_atom
+    routs = model_exe.batch([tl.sexp(("ranges", p[0])) for _, p in probes])
+    rcache = {}
+    for (text, (term, rep, per)), ro in zip(probes, routs):
+        if ro.startswith("ERR") or rep.startswith("ERR"):
+            continue
+        if text not in rcache:
+            try:
+                rcache[text] = range_probe(text)
+            except BaseException as e:  # noqa
+                if isinstance(e, KeyboardInterrupt):
+                    raise
+                rcache[text] = "ERR " + tl.classify_exc(e)
+        impl = rcache[text]
+        if isinstance(impl, str) or len(impl) != 1:
+            continue            # several head formulas in one text, or rejected: not compared here
+        want = {}
+        for key, lo, ray in tl.parse_sexp(ro):
+            lo = int(lo)
+            want.setdefault(str(key), set()).update(range(lo, RANGE_BOUND + 1) if ray == "1" else ([lo] if lo <= RANGE_BOUND else []))
+        got = {k: v for k, v in impl[0].items() if v}
+        want = {k: v for k, v in want.items() if v}
+        if got != want:
+            dis.append({"layer": "L1-ranges", "text": text, "what": "time ranges of the head atoms differ",
+                        "model": {k: sorted(v) for k, v in want.items()}, "impl": {k: sorted(v) for k, v in got.items()}})
     for (text, (term, rep, per)), out in zip(probes, outs):
         n += 1
         if out.startswith("ERR"):
